@@ -5,7 +5,7 @@
 //! Every op line is self-contained (stateless stream). Argument formats:
 //!   u64 list   `-` | elem{,elem}   elem = `v` | `a..b` (inclusive, ascending) | `v*k` (k copies)
 //!   i64 list   `-` | elem{,elem}   elem = `v` | `v*k`
-//!   bits       `-` | seg{.seg}     seg  = `[01]+` | `<bit>*<n>`
+//!   bits       `-` | seg{.seg}     seg  = `[01]+` | `<bit>*<n>` | `[01]+^<k>` (pattern k times)
 //!   strings    `-` | tok{,tok}     tok  = `~` (null) | `S<hex utf8>`
 //!   bv program op{,op}: first `e` new | `f<bits>` from_bools | `o<n>` ones | `z<n>` zeros | `c<n>` with_capacity,
 //!              then `p<b>` push | `P<bits>` pushes | `s<i>:<b>` set | `n` not | `A<x>` and | `O<x>` or | `X<x>` xor
@@ -85,7 +85,14 @@ fn p_bits(s: &str) -> Vec<bool> {
     }
     let mut v = Vec::new();
     for seg in s.split('.') {
-        if let Some((b, n)) = seg.split_once('*') {
+        if let Some((pat, k)) = seg.split_once('^') {
+            let k: usize = k.parse().unwrap();
+            for _ in 0..k {
+                for c in pat.chars() {
+                    v.push(c == '1');
+                }
+            }
+        } else if let Some((b, n)) = seg.split_once('*') {
             let n: usize = n.parse().unwrap();
             let b = b == "1";
             for _ in 0..n {
@@ -617,4 +624,732 @@ pub fn run(args: &[&str]) -> String {
     })
 }
 
-pub fn generate(_seed: u64, _cases: usize, _out: &mut Vec<String>) {}
+// ───────────────────────── generator ─────────────────────────
+
+fn g_bits(r: &mut Rng) -> String {
+    let len = match r.below(12) {
+        0 => 0,
+        1 => 1,
+        2 => r.range(62, 66),
+        3 => r.range(126, 130),
+        4 => r.range(510, 515),
+        5 | 6 => r.range(2, 40),
+        7 => r.range(40, 200),
+        8 => r.range(200, 1300),
+        _ => r.range(1, 100),
+    } as usize;
+    if len == 0 {
+        return "-".into();
+    }
+    match r.below(7) {
+        0 => format!("1*{}", len),
+        1 => format!("0*{}", len),
+        2 | 3 => {
+            // runs
+            let mut segs = Vec::new();
+            let mut left = len;
+            let mut b = r.below(2);
+            while left > 0 {
+                let cap = if r.chance(1, 3) { 400 } else { 20 };
+                let n = (r.range(1, (left as u64).min(cap)) as usize).min(left);
+                segs.push(format!("{}*{}", b, n));
+                left -= n;
+                b ^= 1;
+            }
+            segs.join(".")
+        }
+        4 => {
+            let pat: String = (0..r.range(2, 9)).map(|_| if r.chance(1, 3) { '1' } else { '0' }).collect();
+            format!("{}^{}", pat, (len / pat.len()).max(1))
+        }
+        _ => {
+            let dens = r.range(1, 9);
+            (0..len).map(|_| if r.below(10) < dens { '1' } else { '0' }).collect()
+        }
+    }
+}
+
+fn g_bv_prog(r: &mut Rng, allow_panic: bool) -> String {
+    let mut ops: Vec<String> = Vec::new();
+    let mut len: usize;
+    match r.below(8) {
+        0 => {
+            ops.push("e".into());
+            len = 0;
+        }
+        1 => {
+            len = *r.pick(&[0usize, 1, 5, 63, 64, 65, 100, 128, 130]);
+            ops.push(format!("o{}", len));
+        }
+        2 => {
+            len = *r.pick(&[0usize, 1, 5, 63, 64, 65, 100, 128]);
+            ops.push(format!("z{}", len));
+        }
+        3 => {
+            ops.push(format!("c{}", r.below(200)));
+            len = 0;
+        }
+        _ => {
+            let b = g_bits(r);
+            len = p_bits(&b).len();
+            ops.push(format!("f{}", b));
+        }
+    }
+    let n_ops = if r.chance(1, 3) { 0 } else { r.below(6) };
+    for _ in 0..n_ops {
+        match r.below(9) {
+            0 | 1 => {
+                ops.push(format!("p{}", r.below(2)));
+                len += 1;
+            }
+            2 => {
+                let b = g_bits(r);
+                let n = p_bits(&b).len();
+                if n > 0 && n < 300 {
+                    ops.push(format!("P{}", b));
+                    len += n;
+                }
+            }
+            3 | 4 => {
+                if len > 0 {
+                    ops.push(format!("s{}:{}", r.below(len as u64), r.below(2)));
+                } else if allow_panic && r.chance(1, 4) {
+                    ops.push(format!("s{}:1", r.below(3)));
+                    return ops.join(",");
+                }
+            }
+            5 => ops.push("n".into()),
+            k => {
+                let x = if r.chance(1, 3) {
+                    let n = r.below(140) as usize;
+                    len = len.min(n);
+                    format!("o{}", n)
+                } else {
+                    let b = g_bits(r);
+                    len = len.min(p_bits(&b).len());
+                    b
+                };
+                ops.push(format!("{}{}", ["A", "O", "X"][(k - 6) as usize], x));
+            }
+        }
+    }
+    ops.join(",")
+}
+
+fn g_strs(r: &mut Rng) -> Vec<Option<String>> {
+    let pool = ["", "a", "b", "ab", "Person", "Company", "é", "a b", "xxxxxxxxxxxxxxxxxxxxxxxx", "日本"];
+    let len = match r.below(8) {
+        0 => 0,
+        1 => 1,
+        2 => r.range(2, 5),
+        3 => r.range(62, 67),
+        4 => r.range(126, 131),
+        _ => r.range(3, 30),
+    } as usize;
+    let nullp = *r.pick(&[0u64, 0, 1, 3, 10]);
+    let card = r.range(1, pool.len() as u64) as usize;
+    let uniq = r.chance(1, 6);
+    (0..len)
+        .map(|i| {
+            if r.below(10) < nullp {
+                None
+            } else if uniq {
+                Some(format!("s{}", i))
+            } else {
+                Some(pool[r.below(card as u64) as usize].to_string())
+            }
+        })
+        .collect()
+}
+
+fn strs_arg(v: &[Option<String>]) -> String {
+    if v.is_empty() {
+        return "-".into();
+    }
+    v.iter().map(|s| opt_s(s.as_deref())).collect::<Vec<_>>().join(",")
+}
+
+fn g_u64s(r: &mut Rng) -> Vec<u64> {
+    let len = match r.below(10) {
+        0 => r.below(8),
+        1 => 8,
+        2 => r.range(62, 66),
+        3 => r.range(100, 300),
+        _ => r.range(8, 60),
+    } as usize;
+    let width = r.range(0, 64) as u32;
+    let rnd = |r: &mut Rng| if width == 0 { 0 } else { r.next() >> (64 - width) };
+    let mut cur = rnd(r);
+    let mut v = Vec::with_capacity(len);
+    match r.below(9) {
+        0 => v = vec![cur; len],
+        1 | 2 => {
+            // runs with a chosen number of breaks
+            let pbreak = r.range(1, 9);
+            let small = r.chance(1, 2);
+            for _ in 0..len {
+                if r.below(10) < pbreak {
+                    cur = if small { r.below(6) } else { rnd(r) };
+                }
+                v.push(cur);
+            }
+        }
+        3 | 4 => {
+            // sorted, steps of a chosen magnitude, some repeats
+            let sh = r.below(40);
+            for _ in 0..len {
+                if !r.chance(1, 4) {
+                    cur = cur.saturating_add(r.below(1 << sh));
+                }
+                v.push(cur);
+            }
+        }
+        5 => {
+            for _ in 0..len {
+                v.push(rnd(r));
+            }
+        }
+        6 => {
+            for _ in 0..len {
+                v.push(*r.pick(&[0u64, 1, u64::MAX, u64::MAX - 1, 1 << 63, (1 << 63) - 1, 1 << 31, (1 << 31) - 1, 1 << 32]));
+            }
+            if r.chance(1, 2) {
+                v.sort_unstable();
+            }
+        }
+        7 => {
+            // exactly r runs over n values with n around 2r / 3r (the selector's thresholds)
+            let runs = r.range(3, 12) as usize;
+            let n = (*r.pick(&[2 * runs, 2 * runs + 1, 3 * runs - 1, 3 * runs, 3 * runs + 1, 4 * runs])).max(8);
+            let sorted = r.chance(1, 2);
+            let mut val = r.below(4);
+            let mut cuts: Vec<usize> = (0..runs).map(|i| (i + 1) * n / runs).collect();
+            cuts[runs - 1] = n;
+            let mut start = 0;
+            for c in cuts {
+                for _ in start..c {
+                    v.push(val);
+                }
+                start = c;
+                let hi = 1u64 << r.below(33);
+                val = if sorted { val + r.range(1, hi) } else { (val + r.range(1, 5)) % 7 };
+            }
+        }
+        _ => {
+            for i in 0..len {
+                v.push(i as u64 * r.range(1, 3));
+            }
+        }
+    }
+    v
+}
+
+/// compact form of a u64 list (`v*k` for repeats, `a..b` for unit steps)
+fn u64s_arg(v: &[u64]) -> String {
+    if v.is_empty() {
+        return "-".into();
+    }
+    let mut out: Vec<String> = Vec::new();
+    let mut i = 0;
+    while i < v.len() {
+        let mut j = i + 1;
+        while j < v.len() && v[j] == v[i] {
+            j += 1;
+        }
+        if j - i >= 3 {
+            out.push(format!("{}*{}", v[i], j - i));
+            i = j;
+            continue;
+        }
+        let mut j = i + 1;
+        while j < v.len() && v[j - 1] != u64::MAX && v[j] == v[j - 1] + 1 {
+            j += 1;
+        }
+        if j - i >= 4 {
+            out.push(format!("{}..{}", v[i], v[j - 1]));
+            i = j;
+            continue;
+        }
+        out.push(v[i].to_string());
+        i += 1;
+    }
+    out.join(",")
+}
+
+fn i64s_arg(v: &[i64]) -> String {
+    if v.is_empty() {
+        return "-".into();
+    }
+    v.iter().map(|x| x.to_string()).collect::<Vec<_>>().join(",")
+}
+
+fn g_val(r: &mut Rng, kind: u64) -> Value {
+    match kind {
+        0 => Value::Int64(match r.below(4) {
+            0 => r.below(10) as i64,
+            1 => -(r.below(1000) as i64),
+            2 => *r.pick(&[i64::MIN, i64::MAX, 0, -1]),
+            _ => r.next() as i64 >> r.below(64),
+        }),
+        1 => Value::String((*r.pick(&["", "a", "b", "Person", "Company", "é", "longer string value"])).into()),
+        2 => Value::Bool(r.chance(1, 2)),
+        3 => Value::Float64(*r.pick(&[0.0, -0.0, 1.5, f64::NAN, f64::INFINITY, -2.25])),
+        _ => Value::Null,
+    }
+}
+
+fn g_pc_prog(r: &mut Rng) -> (String, Vec<u64>) {
+    let mut ops: Vec<String> = Vec::new();
+    let mode = *r.pick(&[0u64, 0, 0, 0, 1, 2]);
+    if mode != 0 || r.chance(1, 4) {
+        ops.push(format!("M{}", mode));
+    }
+    let mut ids: Vec<u64> = vec![0, 1];
+    let n_ops = r.range(1, 9);
+    for _ in 0..n_ops {
+        match r.below(14) {
+            0 | 1 | 2 => {
+                let start = *r.pick(&[0u64, 0, 3, 100, 1 << 40]);
+                let n = *r.pick(&[7u64, 8, 9, 12, 20, 40]);
+                let k = r.below(3);
+                let pat = *r.pick(&["q", "m", "w", "g", "c", "u", "t", "T", "m", "c"]);
+                ops.push(format!("b{}:{}:{}:{}", start, n, k, pat));
+                ids.push(start);
+                ids.push(start + n - 1);
+                ids.push(start + r.below(n));
+            }
+            3 | 4 | 5 => {
+                let id = if r.chance(2, 3) { *r.pick(&ids) } else { r.below(50) };
+                let kind = *r.pick(&[0u64, 0, 0, 1, 1, 2, 2, 3, 4]);
+                ops.push(format!("s{}:{}:{}", id, r.below(3), tok(&g_val(r, kind))));
+                ids.push(id);
+            }
+            6 => ops.push(format!("r{}:{}", *r.pick(&ids), r.below(3))),
+            7 => ops.push(format!("R{}", *r.pick(&ids))),
+            8 | 9 | 10 => ops.push("F".into()),
+            11 => ops.push("C".into()),
+            12 => ops.push(format!("D{}", r.below(3))),
+            _ => ops.push(format!("E{}:{}", r.below(3), r.below(3))),
+        }
+    }
+    ids.sort_unstable();
+    ids.dedup();
+    (ops.join(","), ids)
+}
+
+fn g_adj_prog(r: &mut Rng) -> (u64, String) {
+    let cap = *r.pick(&[1u64, 1, 2, 3, 4, 8, 64, 64]);
+    let mut ops: Vec<String> = Vec::new();
+    let n = r.range(1, if cap >= 8 { 120 } else { 40 });
+    let mut eid = r.below(3);
+    let big_dst = r.chance(1, 6);
+    let big_eid = r.chance(1, 8);
+    let mut eids: Vec<(u64, u64)> = Vec::new();
+    for _ in 0..n {
+        match r.below(20) {
+            0 | 1 => ops.push("c".into()),
+            2 => ops.push("n".into()),
+            3 => ops.push("f".into()),
+            4 | 5 => {
+                if let Some((s, e)) = eids.get(r.below(eids.len().max(1) as u64) as usize).copied() {
+                    ops.push(format!("d{}:{}", s, e));
+                } else {
+                    ops.push(format!("d{}:{}", r.below(3), r.below(5)));
+                }
+            }
+            _ => {
+                let src = *r.pick(&[0u64, 0, 0, 1, 5]);
+                let dst = if big_dst && r.chance(1, 3) {
+                    *r.pick(&[u64::MAX, u64::MAX - 1, 1 << 63, 1 << 40])
+                } else {
+                    r.below(7)
+                };
+                let e = if big_eid && r.chance(1, 3) { r.next() } else { eid };
+                eid += 1;
+                ops.push(format!("a{}:{}:{}", src, dst, e));
+                eids.push((src, e));
+            }
+        }
+    }
+    if r.chance(1, 2) {
+        ops.push("c".into());
+    }
+    if r.chance(1, 3) {
+        ops.push("f".into());
+    }
+    (cap, ops.join(","))
+}
+
+fn g_increasing(r: &mut Rng) -> String {
+    match r.below(10) {
+        0 => "-".into(),
+        1 => format!("{}", *r.pick(&[0u64, 1, 7, 1 << 20, (1 << 63) - 1, 1 << 63, u64::MAX - 1, u64::MAX])),
+        2 => {
+            let a = r.below(5);
+            format!("{}..{}", a, a + r.range(1, 700))
+        }
+        3 => {
+            // a dense cluster, then far away values: the dense part lands in one superblock of `upper`
+            let a = r.below(100);
+            let n = r.range(200, 700);
+            let far = a + n + r.range(1000, 1 << 30);
+            format!("{}..{},{}", a, a + n, far)
+        }
+        4 => {
+            let mut v = Vec::new();
+            let mut cur = r.below(10);
+            for _ in 0..r.range(2, 6) {
+                let n = r.range(1, 120);
+                v.push(format!("{}..{}", cur, cur + n));
+                let hi = 1u64 << r.below(40);
+                cur += n + r.range(2, hi.max(2));
+            }
+            v.join(",")
+        }
+        5 => {
+            let v = [0u64, 1, (1 << 63) - 1, 1 << 63, u64::MAX - 1, u64::MAX];
+            let take: Vec<String> = v.iter().filter(|_| r.chance(1, 2)).map(|x| x.to_string()).collect();
+            if take.is_empty() { "0".into() } else { take.join(",") }
+        }
+        9 if r.chance(1, 2) => {
+            // not strictly increasing (outside the contract: must panic)
+            let a = r.below(10);
+            format!("{},{},{}", a, a + 3, a + r.below(4))
+        }
+        _ => {
+            let n = r.range(1, 60);
+            let sh = r.below(50);
+            let hi = 1u64 << r.below(20);
+            let mut cur = r.below(hi);
+            let mut v = Vec::new();
+            for _ in 0..n {
+                v.push(cur);
+                cur = cur.saturating_add(r.range(1, 1 << sh));
+                if cur == u64::MAX {
+                    break;
+                }
+            }
+            u64s_arg(&v)
+        }
+    }
+}
+
+fn g_symbols(r: &mut Rng) -> Vec<u64> {
+    let sigma = *r.pick(&[1u64, 2, 2, 3, 4, 5, 8, 9, 17]);
+    let alphabet: Vec<u64> = (0..sigma)
+        .map(|i| match r.below(4) {
+            0 => i,
+            1 => i * 1000 + 7,
+            2 => u64::MAX - i,
+            _ => r.below(50),
+        })
+        .collect();
+    let len = match r.below(8) {
+        0 => 0,
+        1 => 1,
+        2 => r.range(60, 70),
+        3 => r.range(300, 900),
+        _ => r.range(2, 40),
+    } as usize;
+    let runs = r.chance(1, 3) || len > 100;
+    let mut v = Vec::with_capacity(len);
+    let mut cur = *r.pick(&alphabet);
+    for _ in 0..len {
+        if !runs || r.chance(1, if len > 100 { 150 } else { 5 }) {
+            cur = *r.pick(&alphabet);
+        }
+        v.push(cur);
+    }
+    v
+}
+
+pub fn generate(seed: u64, cases: usize, out: &mut Vec<String>) {
+    let mut r = Rng::new(seed ^ 0x6331_3562);
+    let mut n = 0usize;
+    let mut case = |out: &mut Vec<String>| {
+        out.push(format!("# case {} seed {}", n, seed));
+        n += 1;
+    };
+    // ── fixed lines: the boundary inputs and the inputs of the witnesses ──
+    case(out);
+    for l in [
+        "dict.dec -",
+        "dict.build -",
+        "dict.dec ~",
+        "dict.dec S",
+        "dict.dec S61,S61,~,S62",
+        "dict.get S61,~ 1",
+        "dict.get S61,~ 64",
+        "bv.prog e",
+        "bv.prog o1,p0",
+        "bv.prog f1,n,p0",
+        "bv.prog o64,p0",
+        "bv.prog o65,p0,p0",
+        "bv.eq o1 f1",
+        "bv.eq o64 f1*64",
+        "bv.rt o3,p0",
+        "bv.rt f1*64.0",
+        "bv.get f1,n,p0 1",
+        "sel.rt -",
+        "sel.rt 0",
+        "sel.rt 0*8",
+        "sel.rt 0*9",
+        "sel.rt 18446744073709551615*8",
+        "sel.rt 0..7",
+        "sel.rt 0,0,0,0,0,0,0,18446744073709551615",
+        "sel.rt 18446744073709551615,0,0,0,0,0,0,0",
+        "sel.srt -9223372036854775808,9223372036854775807,0,-1,1,5,5,5",
+        "sel.bool -",
+        "sel.bool 1*64",
+        "sel.bool 1*65",
+        "pc b0:8:0:q,F g0:0,g7:0",
+        "pc b0:8:0:c,F g0:0",
+        "pc b0:8:0:t,F g0:0",
+        "pc b0:7:0:q,F g0:0",
+        "pc b0:8:0:q,F,D0 g0:0,g7:0",
+        "pc b0:8:0:q,F,s3:0:I7,D0 g3:0",
+        "pc b0:8:0:q,F,r3:0,D0 g3:0",
+        "pc b0:8:0:q,F,R3,D0 g3:0,a3",
+        "pc b0:8:0:c,F,s3:0:S78,D0 g3:0",
+        "pc b0:8:0:w,F g0:0",
+        "pc.stat b0:8:0:q,F 0",
+        "pc.stat b0:8:0:q,F,s3:0:I7 0",
+        "adj.set 64 a5:0:7,c,f 5",
+        "adj.set 1 a5:0:1,a5:0:2,a5:0:3,a5:0:4,a5:0:5,c 5",
+        "adj.set 64 a5:0:7,a5:0:8,c,f 5",
+        "adj.set 64 a5:1:7,c,f 5",
+        "adj.seq 2 a0:3:1,a0:1:2,a0:2:3,a0:1:4,c,f 0",
+        "sbv.rank1 f1*321 300",
+        "sbv.rank1 f1*320 300",
+        "sbv.rank1 f1*256.0*64.1 321",
+        "sbv.sel1 f1*512 300",
+        "sbv.sel1 f1*320 256",
+        "sbv.sel0 f1*320.0 0",
+        "sbv.rank0 f1*320.0 321",
+        "sbv.rank1 o130 129",
+        "sbv.info o130",
+        "sbv.sel1 e 0",
+        "sbv.sel0 e 0",
+        "sbv.rank1 e 5",
+        "sbv.sel1 f10^5000 4500",
+        "sbv.sel0 f10^5000 4500",
+        "sbv.sel1 f0*600.1^4200 4100",
+        "sbv.info f10^5000",
+        "ef.dec -",
+        "ef.dec 0",
+        "ef.dec 0..599,1000000",
+        "ef.get 0..599,1000000 300",
+        "ef.get 0..254,1000000 254",
+        "ef.get 0..255,1000000 255",
+        "ef.get 0..300,1000000 300",
+        "ef.get 9223372036854775807 0",
+        "ef.get 9223372036854775808 0",
+        "ef.get 18446744073709551615 0",
+        "ef.dec 0,18446744073709551614",
+        "ef.dec 5,5",
+        "wt.dec -",
+        "wt.dec 7",
+        "wt.dec 7*70",
+        "wt.rank 9*600,3 9 300",
+        "wt.select 9*600,3 9 300",
+        "wt.access 9*600,3 600",
+        "wt.rank 3,9*600 9 300",
+        "wt.dec 0,1,0,2,1,0,2,2",
+    ] {
+        out.push(format!("c15b {}", l));
+    }
+    for _ in 0..cases {
+        case(out);
+        match r.below(20) {
+            // ── dictionary ──
+            0 | 1 | 2 => {
+                let vs = g_strs(&mut r);
+                let l = strs_arg(&vs);
+                for op in ["dict.build", "dict.dec", "dict.ratio"] {
+                    out.push(format!("c15b {} {}", op, l));
+                }
+                let mut idx = vec![0u64, vs.len() as u64, vs.len() as u64 + 1, 63, 64];
+                for _ in 0..3 {
+                    idx.push(r.below(vs.len() as u64 + 2));
+                }
+                idx.sort_unstable();
+                idx.dedup();
+                for i in idx {
+                    out.push(format!("c15b dict.get {} {}", l, i));
+                    out.push(format!("c15b dict.code {} {}", l, i));
+                }
+                for t in ["a", "b", "Person", "", "zzz", "s1"] {
+                    if r.chance(1, 2) {
+                        out.push(format!("c15b dict.enc {} {}", l, s_tok(t)));
+                    }
+                }
+                for c in 0..3 {
+                    out.push(format!("c15b dict.filter {} {}", l, c));
+                }
+                if r.chance(1, 3) && vs.iter().all(|v| v.is_some()) {
+                    out.push(format!("c15b sel.str {}", l));
+                }
+                if r.chance(1, 4) {
+                    let dict = ["S61", "S62", "S"];
+                    let nd = r.range(1, 3) as usize;
+                    let codes: Vec<u64> = (0..r.range(1, 70)).map(|_| r.below(5)).collect();
+                    let bm = if r.chance(1, 2) { "x".to_string() } else { format!("{}", r.next() >> r.below(64)) };
+                    out.push(format!("c15b dict.raw {} {} {} {}", dict[..nd].join(","), join(&codes), bm, r.below(codes.len() as u64 + 2)));
+                }
+            }
+            // ── bit vector ──
+            3 | 4 | 5 => {
+                let p = g_bv_prog(&mut r, true);
+                for op in ["bv.prog", "bv.words", "bv.bytes", "bv.rt", "bv.iter"] {
+                    out.push(format!("c15b {} {}", op, p));
+                }
+                for _ in 0..3 {
+                    out.push(format!("c15b bv.get {} {}", p, r.below(140)));
+                }
+                if r.chance(1, 3) {
+                    let q = g_bv_prog(&mut r, false);
+                    out.push(format!("c15b bv.eq {} {}", p, q));
+                    out.push(format!("c15b bv.eq {} {}", p, p));
+                }
+                let b = g_bits(&mut r);
+                out.push(format!("c15b bv.from {}", b));
+                out.push(format!("c15b bv.collect {}", b));
+                if r.chance(1, 3) {
+                    let len = r.below(30) as usize;
+                    let mut bs: Vec<u8> = (0..len).map(|_| r.next() as u8).collect();
+                    if len >= 4 {
+                        bs[0] = r.below(200) as u8;
+                        bs[1] = 0;
+                        bs[2] = 0;
+                        bs[3] = 0;
+                    }
+                    out.push(format!("c15b bv.fb {}", if bs.is_empty() { "-".into() } else { hex(&bs) }));
+                }
+            }
+            // ── codec selector ──
+            6 | 7 | 8 | 9 => {
+                let xs = g_u64s(&mut r);
+                let l = u64s_arg(&xs);
+                for op in ["sel.int", "sel.cint", "sel.rt"] {
+                    out.push(format!("c15b {} {}", op, l));
+                }
+                let ys: Vec<i64> = xs
+                    .iter()
+                    .map(|x| if r.chance(1, 2) { *x as i64 } else { (*x >> 1) as i64 - ((*x & 1) as i64) * 1000 })
+                    .collect();
+                out.push(format!("c15b sel.srt {}", i64s_arg(&ys)));
+                out.push(format!("c15b sel.bool {}", g_bits(&mut r)));
+                if r.chance(1, 4) {
+                    let codec = *r.pick(&["None", "Delta", "BitPacked:3", "DeltaBitPacked:3", "Dictionary", "BitVector", "RunLength"]);
+                    let len = r.below(40) as usize;
+                    let mut bs: Vec<u8> = (0..len).map(|_| r.next() as u8).collect();
+                    if (8..=12).contains(&len) {
+                        // the first 8 bytes are a count for RunLength: tiny or beyond isize::MAX / 16
+                        // (values in between make Vec::with_capacity abort the process)
+                        let huge = r.chance(1, 2);
+                        for b in &mut bs[2..8] {
+                            *b = if huge { 0xff } else { 0 };
+                        }
+                    }
+                    if len > 12 {
+                        bs[0] = r.below(66) as u8;
+                        bs[1] = r.below(4) as u8;
+                        for b in &mut bs[2..8] {
+                            *b = 0;
+                        }
+                        bs[8] = r.below(66) as u8;
+                        bs[9] = r.below(4) as u8;
+                        bs[10] = 0;
+                        bs[11] = 0;
+                        bs[12] = 0;
+                    }
+                    out.push(format!("c15b sel.dec {} {}", codec, if bs.is_empty() { "-".into() } else { hex(&bs) }));
+                }
+            }
+            // ── property columns ──
+            10 | 11 | 12 | 13 => {
+                let (p, ids) = g_pc_prog(&mut r);
+                let mut qs: Vec<String> = Vec::new();
+                for _ in 0..r.range(2, 6) {
+                    qs.push(format!("g{}:{}", *r.pick(&ids), r.below(3)));
+                }
+                qs.push(format!("a{}", *r.pick(&ids)));
+                if r.chance(1, 2) {
+                    let b: Vec<String> = (0..r.range(1, 4)).map(|_| r.pick(&ids).to_string()).collect();
+                    qs.push(format!("B{}:{}", r.below(3), b.join(".")));
+                }
+                out.push(format!("c15b pc {} {}", p, qs.join(",")));
+                for k in 0..3 {
+                    out.push(format!("c15b pc.stat {} {}", p, k));
+                }
+            }
+            // ── adjacency ──
+            14 | 15 | 16 => {
+                let (cap, p) = g_adj_prog(&mut r);
+                for src in [0u64, 1, 5] {
+                    out.push(format!("c15b adj.set {} {} {}", cap, p, src));
+                }
+                out.push(format!("c15b adj.seq {} {} 0", cap, p));
+                out.push(format!("c15b adj.stat {} {}", cap, p));
+            }
+            // ── succinct bit vector ──
+            17 => {
+                let p = if r.chance(1, 4) { g_bv_prog(&mut r, false) } else { format!("f{}", g_bits(&mut r)) };
+                out.push(format!("c15b sbv.info {}", p));
+                let len = 1400u64;
+                for _ in 0..4 {
+                    let i = if r.chance(1, 2) { r.below(len) } else { r.below(70) };
+                    for op in ["sbv.rank1", "sbv.rank0", "sbv.sel1", "sbv.sel0"] {
+                        out.push(format!("c15b {} {} {}", op, p, i));
+                    }
+                }
+            }
+            // ── Elias-Fano ──
+            18 => {
+                let l = g_increasing(&mut r);
+                let xs = p_u64s(&l);
+                out.push(format!("c15b ef.info {}", l));
+                out.push(format!("c15b ef.dec {}", l));
+                for _ in 0..3 {
+                    out.push(format!("c15b ef.get {} {}", l, r.below(xs.len() as u64 + 1)));
+                }
+                for _ in 0..3 {
+                    let v = if !xs.is_empty() && r.chance(1, 2) {
+                        *r.pick(&xs)
+                    } else if !xs.is_empty() {
+                        r.pick(&xs).wrapping_add(r.below(3)).wrapping_sub(1)
+                    } else {
+                        r.below(10)
+                    };
+                    for op in ["ef.contains", "ef.pred", "ef.succ"] {
+                        out.push(format!("c15b {} {} {}", op, l, v));
+                    }
+                }
+            }
+            // ── wavelet tree ──
+            _ => {
+                let xs = g_symbols(&mut r);
+                let l = u64s_arg(&xs);
+                out.push(format!("c15b wt.info {}", l));
+                out.push(format!("c15b wt.dec {}", l));
+                for _ in 0..3 {
+                    let sym = if !xs.is_empty() && r.chance(4, 5) { *r.pick(&xs) } else { r.below(5) };
+                    let i = r.below(xs.len() as u64 + 2);
+                    if (i as usize) < xs.len() {
+                        out.push(format!("c15b wt.access {} {}", l, i));
+                    }
+                    out.push(format!("c15b wt.rank {} {} {}", l, sym, i));
+                    out.push(format!("c15b wt.select {} {} {}", l, sym, r.below(xs.len() as u64 / 2 + 2)));
+                    out.push(format!("c15b wt.count {} {}", l, sym));
+                }
+            }
+        }
+    }
+    // one auto-mode column that crosses HOT_BUFFER_SIZE (4096 sets trigger compress())
+    case(out);
+    out.push("c15b pc M1,b0:4200:0:m g0:0,g4095:0,g4096:0,g4199:0".into());
+    out.push("c15b pc.stat M1,b0:4200:0:m 0".into());
+    out.push("c15b pc M1,b0:4095:0:m g0:0,g4094:0".into());
+    out.push("c15b pc M2,b0:100:0:m,C g0:0,g99:0".into());
+    out.push("c15b pc M0,b0:100:0:m,C g0:0,g99:0".into());
+}
